@@ -83,6 +83,15 @@ def run(ctx):
         for mode in ("api", "main"):
             runs.append(["files", mode, json.dumps(o1), json.dumps(tree)])
             meta.append(("single", t, mode, files, dots, o1, one))
+    sec = {"a.cfg": "username alice password AlicePw1\nsnmp-server community AliceComm RO\n", "site/c.cfg": "username carol password CarolPw3\nenable password CarolEn4\n"}
+    late = [["b.cfg", b64(b"username bob password BobPw2\nsnmp-server community BobComm RW\n" + b"! filler line\n" * 1500 + b"\xff\xfe broken\n"), {}]]
+    stree = [[r, b64(c), {}] for r, c in sec.items()]
+    sopts = dict(pwd=True, salt="s", b4=8, b6=8, hostbits=8)
+    for mode in ("api", "main"):
+        runs.append(["files", mode, json.dumps(sopts), json.dumps(stree)])
+        meta.append(("tree", 10_000 if mode == "api" else 10_001, mode, sec, {}, sopts, None))
+        runs.append(["files", mode, json.dumps(sopts), json.dumps(stree + late)])
+        meta.append(("fail", 10_000 if mode == "api" else 10_001, "bytes-late", sec, {}, sopts, "b.cfg"))
     outs = vlib.run_impl(runs)
     res = []
     for o in outs:
@@ -109,13 +118,14 @@ def run(ctx):
             stray = [p for p in r["listing"] if not (p.startswith("in/") or p.startswith("out/"))]
             if stray:
                 ctx.fail("something else was written", {"mode": mode}, stray, label="impl")
-            if mode == "api":
+            if mode == "api" or t >= 10_000:
                 base[t] = r["out"]
                 order = walk_order(list(files))
                 lines = [l + "\n" for rel in order for l in files[rel].split("\n")[:-1]]
-                mcases.append(textgen.pipe(lines, flags=("p" if opts.get("pwd") else "") + ("a" if opts.get("ip") else ""), salt=opts["salt"], words=opts.get("words"), asnums=opts.get("asnums"), b4=8, b6=8))
-                mwhere.append((t, order, files))
-            elif t in base and r["out"] != base[t]:
+                if t < 10_000:
+                  mcases.append(textgen.pipe(lines, flags=("p" if opts.get("pwd") else "") + ("a" if opts.get("ip") else ""), salt=opts["salt"], words=opts.get("words"), asnums=opts.get("asnums"), b4=8, b6=8))
+                  mwhere.append((t, order, files))
+            elif t < 10_000 and t in base and r["out"] != base[t]:
                 k = next((x for x in sorted(base[t]) if r["out"].get(x) != base[t][x]), None)
                 ctx.fail("entry point %r produces different content than anonymize_files" % mode, {"opts": opts, "file": k}, (r["out"].get(k) or "")[:200], base[t].get(k, "")[:200], label="impl")
         elif kind == "fail":
